@@ -852,6 +852,14 @@ def shard_datatypes(shard):
 # ---------------------------------------------------------------------------------------------
 
 def run(ctx):
+    _run_sequential(ctx)
+    only = getattr(ctx, 'only', None) or set()
+    if not only or 'e2e' in only:
+        from vf.harness import c12e2e
+        c12e2e.run_e2e(ctx)
+
+
+def _run_sequential(ctx):
     tier = ctx.tier
     only = getattr(ctx, 'only', None) or set()
     nA = len(alphabet(tier))
@@ -883,6 +891,9 @@ def run(ctx):
 
 
 def replay(case):
+    if case.get('kind') == 'e2e':
+        from vf.harness import c12e2e
+        return c12e2e.replay_e2e(case)
     part = core.Part()
     tier = case.get('tier', 'thorough')
     with virtual_clock() as clock:
